@@ -226,6 +226,13 @@ def run(tier, replay):
                 V.violation("ordering / limit: the %s rows %s are not an acceptable result for ord='%s' on the %s column, limit %d (RowsAcceptable by TLC)" %
                             (orec["_desc"]["kind"], orec["out"], orec["ord"], "order", orec["lim"]), dict(orec["_desc"], keys=orec["keys"]))
         log("ordering/limit: %d recorded outputs judged by TLC, ImplOrderOK holds for all key assignments of 3 groups" % len(order_recs))
+        # set clause with nested functions (f(g(u)) = f after g), grouped by the computed field
+        fo = os.path.join(wd, "setfn.json")
+        rc, out = vlib.go_test(wd, "./internal/mapr/server", OV, "TestC05SetFunctions", env={"VERIF_OUT": fo}, timeout=300)
+        if rc != 0 or not os.path.exists(fo):
+            raise vlib.Inconclusive("set function harness failed\n" + out[-2000:])
+        for b in json.load(open(fo))["bad"] or []:
+            V.violation("set clause with functions: the groups differ from the central evaluation", b)
         # magnitudes: a partial count/sum beyond 10^6 inside one serialisation interval
         mo = os.path.join(wd, "mag.json")
         nbig = 1000005 if tier == "quick" else 2500003
